@@ -73,6 +73,10 @@ inductive Op (σ : Type) where
   | deleteMeta (k : Key) (version : Option String)
   | lookup (k : Key)
   | systemData (k : Key)
+  /-- `seconds` of (monotonic) time pass and nothing else happens.  The cache reads the clock only to stamp
+      `prepared_at` and registry events; none of the modelled functions looks at those stamps, so the
+      model has no clock and the passage of time is the identity on states. -/
+  | elapse (seconds : Nat)
   deriving Repr
 
 inductive Out (σ ρ : Type) where
@@ -124,6 +128,7 @@ def step (prep : Nat → String → σ → PrepResult ρ) (s : State σ ρ) : Op
     else (s, .typeError)
   | .lookup k => (s, .found ((find? s.cache k).map fun e => (e.resource, e.serial)))
   | .systemData k => (s, .entry (find? s.cache k))
+  | .elapse _ => (s, .unit)
 
 /-- what an offer handed back or, when it raised after storing, what it had prepared -/
 def Out.value? : Out σ ρ → Option (PrepResult ρ × Nat)
@@ -178,6 +183,7 @@ def specStep (prep : Nat → String → σ → PrepResult ρ) (S : Spec σ ρ) :
     else (S, .typeError)
   | .lookup k => (S, .found ((S.map k).map fun e => (e.resource, e.serial)))
   | .systemData k => (S, .entry (S.map k))
+  | .elapse _ => (S, .unit)
 
 def specRun (prep : Nat → String → σ → PrepResult ρ) (S : Spec σ ρ) : List (Op σ) → Spec σ ρ
   | [] => S
@@ -191,13 +197,15 @@ def specOuts (prep : Nat → String → σ → PrepResult ρ) (S : Spec σ ρ) :
 def abs (s : State σ ρ) : Spec σ ρ := ⟨fun k => find? s.cache k, s.calls⟩
 
 /-- operations that cannot change what is cached for `k` while it holds version `v`: anything on
-    another key, lookups, re-offers of `v` itself, malformed offers, deletes naming another version -/
+    another key, lookups, re-offers of `v` itself, malformed offers, deletes naming another version,
+    any amount of time passing -/
 def Quiet (k : Key) (v : String) : Op σ → Prop
   | .offer k' version _ _ _ => k' ≠ k ∨ version = some v ∨ validMeta k' version = false
   | .delete k' version => k' ≠ k ∨ ∃ w, version = some w ∧ w ≠ "" ∧ w ≠ v
   | .deleteMeta k' version => k' ≠ k ∨ validMeta k' version = false
   | .lookup _ => True
   | .systemData _ => True
+  | .elapse _ => True
 
 /-! ## metadata: what `_extract_meta` reads -/
 
